@@ -48,10 +48,9 @@ def status (started : Bool) (pc : Pc) : String :=
   | .done r => s!"done:{showRes r}"
   | _ => "blocked"
 
-def watcherStatus (pc : Pc) : String :=
-  match pc with
-  | .cDrain (i :: _) _ => s!"close{i}"
-  | _ => "-"
+/-- a goroutine godi started itself (the cancellation watcher) is never held back by the harness:
+when it parks in a `Close` method it is released at once, so it never shows in a snapshot -/
+def watcherStatus (_ : Pc) : String := "-"
 
 def snapshot (st : St) (s : Sys) : String :=
   let ts := (List.range st.n).map (fun t =>
@@ -67,7 +66,7 @@ def snapshot (st : St) (s : Sys) : String :=
 def movers (st : St) (s : Sys) : List Nat :=
   (List.range s.thr.length).filter (fun t =>
     match s.thr[t]? with
-    | some th => (t ≥ st.n || st.started.getD t false) && !isUser th.pc && th.enabled s.sh
+    | some th => (t ≥ st.n || (st.started.getD t false && !isUser th.pc)) && th.enabled s.sh
     | none => false)
 
 /-- all states in which nothing moves any more, reachable by letting the movers run in any order -/
